@@ -158,6 +158,10 @@ def cases(tier, seed):
         out.append({'fam': 'MEM', 'aw': 2, 'bw': 3, 'nr': 1, 'nw': 1, 'k': 'two_sims', 'backend': be, 'K': 2})
         out.append({'fam': 'MEM', 'aw': 1, 'bw': 8, 'nr': 2, 'nw': 2, 'k': 'two_sims', 'backend': be, 'K': 2})
         out.append({'fam': 'MEM', 'aw': 2, 'bw': 3, 'nr': 1, 'nw': 1, 'k': 'two_sims', 'backend': be, 'K': 2, 'shared_map': True})
+    for be in ('sim', 'fast', 'opt'):
+        out.append({'fam': 'TWIN', 'k': 'twin', 'backend': be, 'K': 2})
+    for aw, bw in ((4, 8), (4, 70), (4, 130), (33, 65)):
+        out.append({'fam': 'HELPER', 'k': 'inspect_mem', 'aw': aw, 'bw': bw, 'backend': 'compiled'})
     for be in BACKENDS:
         out.append({'fam': 'MEM', 'aw': 2, 'bw': 4, 'nr': 1, 'nw': 1, 'const_ra': 2, 'k': 'bmc_uninit', 'backend': be, 'K': 3})
         out.append({'fam': 'MEM', 'aw': 2, 'bw': 4, 'nr': 1, 'nw': 1, 'const_ra': 0, 'k': 'step', 'backend': be})
@@ -189,6 +193,51 @@ def cases(tier, seed):
 
 def site_of(c):
     return 'C08:%s:%s:%s' % (c['k'], c['backend'], c['fam'] if c['fam'] != 'ROM' else 'ROM:%s:pad=%s' % (c['data'], c.get('pad')))
+
+
+def build_twin(d):
+    """several memories and a ROM read through ONE address wire (and again through equal constant addresses): each read port
+    belongs to its own memory"""
+    ra, wa, wd, we = pyrtl.Input(2, 'ra'), pyrtl.Input(2, 'wa'), pyrtl.Input(3, 'wd'), pyrtl.Input(1, 'we')
+    m1 = pyrtl.MemBlock(bitwidth=3, addrwidth=2, name='m1', asynchronous=True)
+    m2 = pyrtl.MemBlock(bitwidth=3, addrwidth=2, name='m2', asynchronous=True)
+    rom = pyrtl.RomBlock(bitwidth=3, addrwidth=2, romdata=[5, 1, 6, 2], name='rom', asynchronous=True)
+    m1[wa] <<= pyrtl.MemBlock.EnabledWrite(wd, we)
+    m2[wa] <<= pyrtl.MemBlock.EnabledWrite(~wd, we)
+    for i, m in enumerate((m1, m2, rom)):
+        o = pyrtl.Output(3, 'o%d' % i)
+        o <<= m[ra]
+        c = pyrtl.Output(3, 'c%d' % i)
+        c <<= m[pyrtl.Const(2, bitwidth=2)]
+    return pyrtl.working_block()
+
+
+designs.register_family('TWIN', build_twin)
+
+
+def run_twin(case, ob, site):
+    """a design of several memories against the netlist semantics of the design AS BUILT (vf/spec.py), under each back end / pass"""
+    from .. import spec
+    block0 = designs.build(case)
+    K = case['K']
+    v = Vars()
+    sp = spec.run(block0, K, v, reg_init='reset', mem_init='sym')
+    names = sorted(w.name for w in block0.wirevector_subset(pyrtl.Output))
+    widths = {w.name: w.bitwidth for w in block0.wirevector_subset(pyrtl.Output)}
+    block = transformed(case, designs.build(case))
+    be = case['backend']
+    with sym_env([block]):
+        rs = run_sim(block, K, v, kind='fast' if be == 'fast' else 'sim', reg_init='reset', mem_init='sym', track='io')
+    ob.paths += len(rs)
+    for r in rs:
+        if r.exc is not None:
+            ob.prove('no-exception', z3.Not(r.cond()), [], v, site=site + ':exception')
+            continue
+        goals = [('out:%s@%d' % (n, t), to_bv(r.trace[n][t], widths[n]) == sp.trace[n][t], site + ':read') for n in names for t in range(K)]
+        for name, arr in r.mems.items():
+            if name in sp.mems:
+                goals.append(('mem:%s' % name, arr == sp.mems[name], site + ':contents'))
+        ob.prove_all(goals, r.pc, v)
 
 
 def transformed(case, block):
@@ -380,6 +429,12 @@ def run_case(case, ob, tier):
         return run_chelper(case, ob, site)
     if case['k'] == 'rom':
         return run_rom(case, ob, site)
+    if case['k'] == 'twin':
+        return run_twin(case, ob, site)
+    if case['k'] == 'inspect_mem':
+        # the simulator's own view of the array (words wider than a limb, addresses past 2^31): harness shared with C02
+        from . import c02
+        return c02.run_inspect_mem(case, ob, 'C08:compiled:inspect_mem:aw=%d:bw=%d' % (case['aw'], case['bw']))
     if case['k'] == 'two_sims':
         # "else the initial content, else 0": a second simulator on the same MemBlock, created with default arguments, starts
         # from empty memories whatever an earlier simulator wrote (harness shared with C15)
@@ -393,6 +448,19 @@ def replay(cex):
     if case['k'] == 'two_sims':
         from . import c15
         return c15.replay_two_sims(dict(case, sim=case['backend']), designs.build(case), cex.get('model', {}))
+    if case['k'] == 'inspect_mem':
+        from . import c02
+        return c02.replay(cex)
+    if case['k'] == 'twin':
+        K = case['K']
+        mv = cex.get('model', {})
+        block = transformed(case, designs.build(case))
+        trace, mems, _ = concrete.sim_concrete(block, K, mv, kind='fast' if case['backend'] == 'fast' else 'sim', reg_init='reset',
+                                               mem_init='sym', track='io')
+        etrace, emems = concrete.spec_concrete(designs.build(case), K, mv, reg_init='reset', mem_init='sym')
+        bad = ['%s@%d: %r, the design as built gives %r' % (n, t, trace[n][t], etrace[n][t]) for n in sorted(trace) if n in etrace
+               for t in range(K) if trace[n][t] != etrace[n][t]]
+        return bool(bad), 'case=%r inputs=%r\n%s' % (case, mv, '\n'.join(bad[:8]))
     if case['k'] == 'chelper':
         block, bw = helper_design(case['limbs'])
         sim = pyrtl.CompiledSimulation(block=block)
